@@ -407,10 +407,9 @@ func keepaliveScenarios(tier string) []weighted {
 			Counters: func() map[string]int { return lastCounters }, Outcome: func() string { return lastOutcome },
 			NonTrivial: func(m map[string]int) bool { return m["timers_fired"] > 0 }}, weight})
 	}
+	// both tiers use gap lists of length <= 2; thorough adds a gap value, all epoll modes for the
+	// two-gap HTTP lists, the two-gap WebSocket lists and one more preemption for the short lists
 	maxLen := 2
-	if thorough {
-		maxLen = 3
-	}
 	for _, ws := range []bool{false, true} {
 		// gaps: shorter than, equal to (tie between the client's wake-up and the deadline) and
 		// longer than the keep-alive time that applies (HTTP 7 s, WebSocket 4 s)
@@ -461,19 +460,15 @@ func keepaliveScenarios(tier string) []weighted {
 					case thorough && !ws:
 						switch {
 						case len(gl) <= 1:
-							p, d = 2, 2
-						case len(gl) == 2:
-							p, d = 1, 1
-						case m == ekit.LT:
-							p, d = 0, 1
+							p, d = 2, 1
 						default:
-							continue
+							p, d = 0, 1
 						}
 					default:
 						switch {
 						case len(gl) <= 1:
-							p, d = 1, 2
-						case len(gl) == 2 && m == ekit.LT:
+							p, d = 1, 1
+						case m == ekit.LT:
 							p, d = 0, 1
 						default:
 							continue
